@@ -480,32 +480,177 @@ def check_keyword_operands(run: Run, m, tt, rule: str) -> None:
     run.floor(rule, len(calls), 1, "calls of the collection class's operator in process_method_call_on_stream_obj")
     bare = [c for c in calls if not c.args and not c.keywords]
     for c in bare:
-        knows = any(any(isinstance(x, ast.Attribute) and x.attr == "keywords" for x in ast.walk(a)) for a, _pol in Facts(fa, c).atoms)
+        fx_c = Facts(fa, c)
+
+        def _mentions_keywords(a):
+            if any(isinstance(x, ast.Attribute) and x.attr == "keywords" for x in ast.walk(a)):
+                return True
+            # n_given = len(call.args) + len(call.keywords); if n_given == 0: ..
+            for x in ast.walk(a):
+                if isinstance(x, ast.Name) and isinstance(x.ctx, ast.Load):
+                    try:
+                        t_ = fx_c._term(x)
+                    except Exception:  # noqa: BLE001 - a name the term engine cannot place
+                        continue
+                    if contains(t_, lambda q: q[0] == "attr" and q[2] == "keywords"):
+                        return True
+            return False
+
+        knows = any(_mentions_keywords(a) for a, _pol in fx_c.atoms)
+        # where the guard is arithmetic on the two counts, it is evaluated: it may hold for no call with a keyword
+        if knows:
+            admits = _counts_admitted(so, [(a, pol) for a, pol in fx_c.atoms])
+            if admits is not None:
+                knows = not any(nk > 0 for _na, nk in admits)
         run.check(knows, rule, so, stmt_of(c), "the operator is called without arguments only when the call site has no keyword argument", "the collection class's operator is called with no arguments whenever the call site has no *positional* argument: e.Jets().Select(f=lambda j: j.pt()) dies with TypeError (missing 1 required positional argument) instead of keeping the arguments as written", "if len(call_node.args) + len(call_node.keywords) == 0: r = call_method()", key="keyword operand of a nested stream operator dropped")
     pm = view(m, pm)
     n = 0
-    for st in own_nodes(pm):
-        if not isinstance(st, (ast.Assign, ast.If, ast.Return, ast.Expr, ast.AnnAssign)):
+    binds = {}
+    for x in own_nodes(pm):
+        if isinstance(x, ast.Assign) and len(x.targets) == 1 and isinstance(x.targets[0], ast.Name):
+            binds.setdefault(x.targets[0].id, []).append(x.value)
+    parents = {}
+    for x in ast.walk(pm.node):
+        for ch in ast.iter_child_nodes(x):
+            parents[id(ch)] = x
+
+    def _attrs(e, depth=0):
+        out = {x.attr for x in ast.walk(e) if isinstance(x, ast.Attribute)}
+        if depth < 3:
+            for x in ast.walk(e):
+                if isinstance(x, ast.Name) and isinstance(x.ctx, ast.Load) and len(binds.get(x.id, [])) == 1:
+                    out |= _attrs(binds[x.id][0], depth + 1)
+                    # .. and what is added to it afterwards: c.append(kw.value) in `for kw in node.keywords`, c.extend(..), c += ..
+                    for y in ast.walk(pm.node):
+                        grown = None
+                        if isinstance(y, ast.Call) and isinstance(y.func, ast.Attribute) and y.func.attr in ("append", "extend", "insert") and isinstance(y.func.value, ast.Name) and y.func.value.id == x.id:
+                            grown = y
+                        elif isinstance(y, ast.AugAssign) and isinstance(y.target, ast.Name) and y.target.id == x.id:
+                            grown = y
+                        if grown is None:
+                            continue
+                        for a_ in (grown.args if isinstance(grown, ast.Call) else [grown.value]):
+                            out |= _attrs(a_, depth + 1)
+                        up_ = grown
+                        while id(up_) in parents:
+                            up_ = parents[id(up_)]
+                            if isinstance(up_, ast.For):
+                                out |= _attrs(up_.iter, depth + 1)
+        return out
+
+    fed = [k for k in ast.walk(pm.node) if isinstance(k, ast.keyword) and k.arg == "full_type_resolution"]
+    for t_ in [c for c in own_nodes(pm) if isinstance(c, ast.Call) and isinstance(c.func, ast.Name) and c.func.id == "isinstance" and len(c.args) == 2 and ast.unparse(c.args[1]).endswith("Lambda") and isinstance(c.args[0], ast.Name)]:
+        var = t_.args[0].id
+        # what is searched: the iterable of the comprehension clause / for loop that binds the tested name
+        searched, flag_names, direct, up = None, set(), False, t_
+        while id(up) in parents:
+            up = parents[id(up)]
+            if searched is None and isinstance(up, (ast.GeneratorExp, ast.ListComp, ast.SetComp)):
+                for g in up.generators:
+                    if isinstance(g.target, ast.Name) and g.target.id == var:
+                        searched = g.iter
+            if searched is None and isinstance(up, ast.For) and isinstance(up.target, ast.Name) and up.target.id == var:
+                searched = up.iter
+            if isinstance(up, ast.If) and any(x is t_ for x in ast.walk(up.test)):
+                flag_names |= {tg.id for s_ in ast.walk(up) if isinstance(s_, ast.Assign) for tg in s_.targets if isinstance(tg, ast.Name)}
+            if isinstance(up, (ast.Assign, ast.AnnAssign)):
+                flag_names |= {tg.id for tg in (up.targets if isinstance(up, ast.Assign) else [up.target]) if isinstance(tg, ast.Name)}
+            if isinstance(up, ast.keyword) and up.arg == "full_type_resolution":
+                direct = True
+        if searched is None:
             continue
-        tests = [c for c in ast.walk(st.value if isinstance(st, (ast.Assign, ast.AnnAssign, ast.Return, ast.Expr)) and st.value is not None else getattr(st, "test", st)) if isinstance(c, ast.Call) and isinstance(c.func, ast.Name) and c.func.id == "isinstance" and len(c.args) == 2 and ast.unparse(c.args[1]).endswith("Lambda")]
-        if not tests:
-            continue
-        host = st.value if isinstance(st, (ast.Assign, ast.AnnAssign, ast.Return, ast.Expr)) else st.test
-        attrs = {x.attr for x in ast.walk(host) if isinstance(x, ast.Attribute)}
+        attrs = _attrs(searched)
         if "args" not in attrs:
             continue
         # only the search that decides `full_type_resolution` (another one merely words a warning)
-        names = {t.id for t in getattr(st, "targets", []) if isinstance(t, ast.Name)}
-        feeds = any(isinstance(k, ast.keyword) and k.arg == "full_type_resolution" and (any(isinstance(x, ast.Name) and x.id in names for x in ast.walk(k.value)) or any(x is tests[0] for x in ast.walk(k.value))) for k in ast.walk(pm.node))
-        if not feeds:
+        if not (direct or any(isinstance(x, ast.Name) and x.id in flag_names for k in fed for x in ast.walk(k.value))):
             continue
         n += 1
-        run.check("keywords" in attrs, rule, pm, st, "the search for a lambda argument covers keyword values", "only the positional arguments of the call are searched for a lambda: with e.Jets().Where(filter=lambda j: ..) the annotation of Where alone is taken as the full answer, the filter is never followed (calls in it keep their omitted parameters) and what comes after it is typed from ObjectStream[Jet] instead of Iterable[Jet] (Count() -> Any)", "any(isinstance(a, ast.Lambda) for a in node.args + [kw.value for kw in node.keywords])", key="keyword lambda not counted as a lambda argument")
+        run.check("keywords" in attrs, rule, pm, stmt_of(t_), "the search for a lambda argument covers keyword values", "only the positional arguments of the call are searched for a lambda: with e.Jets().Where(filter=lambda j: ..) the annotation of Where alone is taken as the full answer, the filter is never followed (calls in it keep their omitted parameters) and what comes after it is typed from ObjectStream[Jet] instead of Iterable[Jet] (Count() -> Any)", "any(isinstance(a, ast.Lambda) for a in node.args + [kw.value for kw in node.keywords])", key="keyword lambda not counted as a lambda argument")
     run.floor(rule, n, 1, "searches for a lambda among a call's arguments in process_method_call")
+
+
+def _counts_admitted(fi, atoms):
+    """the (number of positional arguments, number of keywords) pairs in 0..2 x 0..2 for which all atoms hold; None when
+    an atom that speaks of the counts is outside the evaluated language (len of .args / .keywords, names bound once to
+    such expressions, + - comparisons, and/or/not)"""
+    binds = {}
+    for n in own_nodes(fi):
+        if isinstance(n, ast.Assign) and len(n.targets) == 1:
+            tg = n.targets[0]
+            if isinstance(tg, ast.Name):
+                binds.setdefault(tg.id, []).append(n.value)
+            elif isinstance(tg, ast.Tuple) and isinstance(n.value, ast.Tuple) and len(tg.elts) == len(n.value.elts):
+                for t_, v_ in zip(tg.elts, n.value.elts):
+                    if isinstance(t_, ast.Name):
+                        binds.setdefault(t_.id, []).append(v_)
+
+    class _No(Exception):
+        pass
+
+    def ev(e, na, nk, depth=0):
+        if depth > 6:
+            raise _No
+        if isinstance(e, ast.Constant) and isinstance(e.value, (int, bool)):
+            return e.value
+        if isinstance(e, ast.Call) and isinstance(e.func, ast.Name) and e.func.id == "len" and len(e.args) == 1 and isinstance(e.args[0], ast.Attribute) and e.args[0].attr in ("args", "keywords"):
+            return na if e.args[0].attr == "args" else nk
+        if isinstance(e, ast.Attribute) and e.attr in ("args", "keywords"):
+            return [None] * (na if e.attr == "args" else nk)  # truthiness of the list
+        if isinstance(e, ast.Name) and len(binds.get(e.id, [])) == 1:
+            return ev(binds[e.id][0], na, nk, depth + 1)
+        if isinstance(e, ast.BinOp) and isinstance(e.op, (ast.Add, ast.Sub)):
+            l, r = ev(e.left, na, nk, depth + 1), ev(e.right, na, nk, depth + 1)
+            if isinstance(l, list) or isinstance(r, list):
+                raise _No
+            return l + r if isinstance(e.op, ast.Add) else l - r
+        if isinstance(e, ast.UnaryOp) and isinstance(e.op, ast.Not):
+            return not ev(e.operand, na, nk, depth + 1)
+        if isinstance(e, ast.BoolOp):
+            vs = [bool(ev(v, na, nk, depth + 1)) for v in e.values]
+            return all(vs) if isinstance(e.op, ast.And) else any(vs)
+        if isinstance(e, ast.Compare) and len(e.ops) == 1:
+            l, r = ev(e.left, na, nk, depth + 1), ev(e.comparators[0], na, nk, depth + 1)
+            if isinstance(l, list) or isinstance(r, list):
+                raise _No
+            o = e.ops[0]
+            for k_, f_ in ((ast.Eq, lambda: l == r), (ast.NotEq, lambda: l != r), (ast.Lt, lambda: l < r), (ast.LtE, lambda: l <= r), (ast.Gt, lambda: l > r), (ast.GtE, lambda: l >= r)):
+                if isinstance(o, k_):
+                    return f_()
+        raise _No
+
+    def speaks(a):
+        for x in ast.walk(a):
+            if isinstance(x, ast.Attribute) and x.attr in ("args", "keywords"):
+                return True
+            if isinstance(x, ast.Name) and len(binds.get(x.id, [])) == 1 and any(isinstance(y, ast.Attribute) and y.attr in ("args", "keywords") for y in ast.walk(binds[x.id][0])):
+                return True
+        return False
+
+    rel = [(a, pol) for a, pol in atoms if speaks(a)]
+    if not rel:
+        return None
+    out = []
+    for na in range(3):
+        for nk in range(3):
+            try:
+                if all(bool(ev(a, na, nk)) == pol for a, pol in rel):
+                    out.append((na, nk))
+            except _No:
+                return None
+    return out
 
 
 def _variadic_fact(a: ast.AST, pol: bool):
     """True: this path is for a `*args` / `**kwargs` parameter; False: for another kind; None: unrelated."""
+    if isinstance(a, ast.BoolOp) and isinstance(a.op, ast.Or) and pol:
+        # kind is VAR_POSITIONAL or kind is VAR_KEYWORD
+        subs = [_variadic_fact(v, True) for v in a.values]
+        return True if subs and all(x is True for x in subs) else None
+    if isinstance(a, ast.BoolOp) and isinstance(a.op, ast.And) and not pol:
+        # not (kind is not VAR_POSITIONAL and kind is not VAR_KEYWORD)
+        subs = [_variadic_fact(v, False) for v in a.values]
+        return True if subs and all(x is True for x in subs) else None
     if isinstance(a, ast.Compare) and len(a.ops) == 1 and isinstance(a.left, ast.Attribute) and a.left.attr == "kind":
         c0 = a.comparators[0]
         names = [x.attr if isinstance(x, ast.Attribute) else getattr(x, "id", None) for x in (c0.elts if isinstance(c0, (ast.Tuple, ast.List, ast.Set)) else [c0])]
